@@ -58,6 +58,8 @@ func vpSampleRecs(tag string, shape int) []*Fastq {
 	switch shape {
 	case 4:
 		return []*Fastq{vpRecord(tag+"a.", 1, 4200, 1), vpRecord(tag+"b.", 1, 2, 0)}
+	case 6: // a read longer than 64 KiB between two short ones
+		return []*Fastq{vpRecord(tag+"a.", 1, 2, 0), vpRecord(tag+"b.", 1, 70000, 1), vpRecord(tag+"c.", 1, 1, 0)}
 	case 0:
 		return []*Fastq{vpRecord(tag+"a.", 1, 2, 0)}
 	case 1:
